@@ -1317,6 +1317,10 @@ class Interp:
         r = models.iterate_model(self, v)
         if r is not NotImplemented:
             return r
+        if isinstance(v, VRec):
+            ci = self.engine.class_info(v.cls)
+            if ci is not None and ci.is_namedtuple:
+                return [v.fields[f[0]] for f in ci.fields]
         raise Unsupported(f"iteration over {v!r}")
 
     def gen_items(self, g: "GenExp"):
